@@ -217,7 +217,7 @@ def account_trace(ctx, tracefile, sig=None, sample_events=4, trace_event='reset'
             continue
         if e.get('ev') == trace_event:
             ntr += 1
-        if e.get('ev') == 'op' and e.get('op') == 'Open' and 'cfg' in e:
+        if e.get('ev') in ('op', 'call', 'reset') and 'cfg' in e and (e.get('ev') == 'reset' or e.get('op') == 'Open'):
             c = e['cfg']; cfg = (c.get('index'), c.get('shards'), c.get('io'), c.get('limit'), c.get('sync'))
         s = (sig or event_sig)(e)
         if s is not None:
